@@ -217,7 +217,7 @@ def build_phy_script(rng, res, profile, pre_words):
     # sync word first: COM + three control symbols, unique in the stream head
     sb.add(*pack([(COM, 1), (SDP, 1), (EDB, 1), (END, 1)]), 0, 1, "sync")
     if profile == "long":
-        target = rng.randint(18000, 26000)
+        target = rng.randint(8000, 14000)
     elif profile == "overload":
         target = rng.randint(2500, 5000)
     else:
@@ -719,6 +719,7 @@ def run_link(rng, tier, res, full):
     def driver():
         b.set(stub.source.valid, 1)
         b.set(stub.raw_source.valid, 1)
+        b.set(stub.sink.ready, 1)                     # as the real physical layer outside electrical idle
         if full:
             b.set(link.header_source.ready, 1)        # the protocol layer takes every received header at once
         for _ in range(min(plan["ready_delay"], plan["vbus_delay"])):
